@@ -1,0 +1,93 @@
+//go:build verif
+
+// Contracts for C04: one fileid and one type per object, across procedures and across SETATTR.
+// Checked by /verif/govc (comment-only file).
+//   pathid(p)   the FNV-1a sum of the path string (assumed contract of hash/fnv in /verif/specs/stdlib.spec)
+//   acIds(c)    every positive entry of the attribute cache carries the fileid of its key
+//   nodeIds(n)  a node's attribute record carries the fileid of the node's path
+// What is proved: Lookup and GetAttr return fileid == pathid(path) on every path (fresh Lstat or cache hit), with
+// the type bits of Lstat's mode on the fresh path; SetAttr leaves type bits, size and fileid of the node's record
+// as they were, whatever mode bits the caller supplies; ReadDirPlus returns only nodes with nodeIds; every cache
+// operation keeps acIds.
+package absnfs
+
+//@ specdef acIds(c *AttrCache) bool = forall(p, string, has(c.cache, p) && c.cache[p] != nil && c.cache[p].attrs != nil ==> c.cache[p].attrs.FileId == pathid(p))
+// an attribute record handed to the cache is copied, and lookups return copies: records inside the cache are never
+// the caller's. notCached(c, a): a is not one of the cache's own records
+//@ specdef notCached(c *AttrCache, a *NFSAttrs) bool = forall(p, string, has(c.cache, p) && c.cache[p] != nil ==> c.cache[p].attrs != a)
+//@ specdef nodeIds(n *NFSNode) bool = n.attrs != nil && n.attrs.FileId == pathid(n.path)
+
+// ---- the attribute cache keeps the fileids it is given
+//@ also AttrCache.Put
+//@ ensures [ids-kept] {C04} old(acIds(c)) && attrs != nil && attrs.FileId == pathid(path) ==> acIds(c)
+//@ also AttrCache.PutNegative
+//@ ensures [ids-kept] {C04} old(acIds(c)) ==> acIds(c)
+//@ also AttrCache.Invalidate
+//@ ensures [ids-kept] {C04} old(acIds(c)) ==> acIds(c)
+//@ also AttrCache.InvalidateNegativeInDir
+//@ ensures [ids-kept] {C04} old(acIds(c)) ==> acIds(c)
+//@ also AttrCache.Get
+//@ ensures [ids-kept] {C04} old(acIds(c)) ==> acIds(c)
+//@ ensures [hit-has-key-fileid] {C04} old(acIds(c)) && result1 && result0 != nil ==> result0.FileId == pathid(path)
+
+// ---- the operation layer
+//@ also AbsfsNFS.LookupWithContext
+// (attribute records are copied into and out of the cache: no record that existed before is written)
+//@ ensures [existing-records-keep-fileid] {C04} forall(a, *NFSAttrs, old(allocated(a)) ==> a.FileId == old(a.FileId))
+//@ ensures [fileid-from-path] {C04} old(acIds(s.attrCache)) && isnil(result1) ==> allocated(result0) && allocated(result0.attrs) && result0.path == path && result0.attrs.FileId == pathid(path) && acIds(s.attrCache)
+//@ ensures [ids-kept] {C04} old(acIds(s.attrCache)) ==> acIds(s.attrCache)
+//@ also AbsfsNFS.Lookup
+// (attribute records are copied into and out of the cache: no record that existed before is written)
+//@ ensures [existing-records-keep-fileid] {C04} forall(a, *NFSAttrs, old(allocated(a)) ==> a.FileId == old(a.FileId))
+//@ ensures [fileid-from-path] {C04} old(acIds(s.attrCache)) && isnil(result1) ==> allocated(result0) && allocated(result0.attrs) && result0.path == path && result0.attrs.FileId == pathid(path)
+//@ ensures [ids-kept] {C04} old(acIds(s.attrCache)) ==> acIds(s.attrCache)
+//@ also AbsfsNFS.GetAttr
+//@ ensures [existing-nodes-untouched] {C04} forall(n, *NFSNode, old(allocated(n)) ==> n.attrs == old(n.attrs) && n.path == old(n.path))
+// (attribute records are copied into and out of the cache: no record that existed before is written)
+//@ ensures [existing-records-keep-fileid] {C04} forall(a, *NFSAttrs, old(allocated(a)) ==> a.FileId == old(a.FileId))
+//@ ensures [fileid-from-path] {C04} old(acIds(s.attrCache)) && isnil(result1) ==> result0.FileId == pathid(node.path)
+//@ ensures [ids-kept] {C04} old(acIds(s.attrCache)) ==> acIds(s.attrCache)
+// the type GETATTR reports is the type Lstat reports (never Stat: a symbolic link is a link)
+//@ callassert absfs.FS.Lstat : [lstat-of-node-path] {C04} arg1 == node.path
+//@ also AbsfsNFS.SetAttr
+//@ ensures [type-size-fileid-kept] {C04} isnil(result) && old(node.attrs) != nil ==> node.attrs != nil && node.attrs.Mode & os.ModeType == old(node.attrs.Mode) & os.ModeType && node.attrs.FileId == old(node.attrs.FileId) && node.attrs.Size == old(node.attrs.Size)
+//@ ensures [error-leaves-record] {C04} !isnil(result) ==> node == nil || node.attrs == old(node.attrs)
+//@ ensures [ids-kept] {C04} old(acIds(s.attrCache)) && old(notCached(s.attrCache, attrs)) ==> acIds(s.attrCache)
+
+// ---- READDIRPLUS: every entry carries the fileid of its path and the attributes GETATTR would report
+//@ specdef listedIds(ns []*NFSNode) bool = forall(a, off(ns), off(ns) + len(ns), allocated(absidx(ns, a)) && allocated(absidx(ns, a).attrs) && nodeIds(absidx(ns, a)), absidx(ns, a))
+//@ also AbsfsNFS.ReadDirWithContext
+//@ ensures [listed-ids] {C04} old(acIds(s.attrCache)) && isnil(result1) ==> listedIds(result0) && acIds(s.attrCache)
+//@ loop 1 invariant {C04} old(acIds(s.attrCache)) ==> listedIds(nodes) && acIds(s.attrCache)
+//@ loop 2 invariant {C04} old(acIds(s.attrCache)) ==> listedIds(nodes) && acIds(s.attrCache)
+//@ also AbsfsNFS.ReadDir
+//@ ensures [listed-ids] {C04} old(acIds(s.attrCache)) && isnil(result1) ==> listedIds(result0) && acIds(s.attrCache)
+//@ also AbsfsNFS.ReadDirPlus
+//@ ensures [listed-ids] {C04} old(acIds(s.attrCache)) && isnil(result1) ==> listedIds(result0) && acIds(s.attrCache)
+//@ loop 1 invariant {C04} old(acIds(s.attrCache)) ==> listedIds(nodes) && acIds(s.attrCache)
+
+// ---- what the handlers put on the wire
+// GETATTR: the fileid encoded is the hash of the handle's path
+//@ also NFSProcedureHandler.handleGetattr
+//@ callassert encodeFileAttributes : [fileid-of-handle-path] {C04} arg1.FileId == pathid(node.path)
+// LOOKUP (OK arm, third encoder call of the handler): the object's fileid is the hash of the looked-up path -
+// the very path a later GETATTR on the returned handle hashes
+//@ also NFSProcedureHandler.handleLookup
+//@ callassert encodeFileAttributes#3 : [fileid-of-looked-up-path] {C04} arg1.FileId == pathid(joined(node.path, name)) && lookupNode.path == joined(node.path, name)
+// READDIR / READDIRPLUS: each entry's fileid is the hash of that entry's path
+//@ also NFSProcedureHandler.handleReaddir
+//@ loop 1 invariant {C04} listedIds(entries)
+//@ callassert xdrEncodeUint64#1 : [entry-fileid-is-path-hash] {C04} arg1 == pathid(entries[i].path)
+//@ also NFSProcedureHandler.handleReaddirplus
+//@ loop 1 invariant {C04} listedIds(entries)
+//@ callassert xdrEncodeUint64#1 : [entry-fileid-is-path-hash] {C04} arg1 == pathid(entries[i].path)
+//@ callassert encodeFileAttributes#2 : [entry-attrs-fileid] {C04} arg1.FileId == pathid(entries[i].path)
+
+// symbolic links are reported as links: attributes are never taken from Stat (which follows links)
+//@ also AbsfsNFS.GetAttr
+//@ callassert absfs.FS.Stat : [never-follows-links] {C04} false
+//@ also AbsfsNFS.LookupWithContext
+//@ callassert absfs.FS.Stat : [never-follows-links] {C04} false
+//@ callassert absfs.FS.Lstat : [lstat-of-looked-up-path] {C04} arg1 == path
+//@ also AbsfsNFS.ReadDirPlus
+//@ callassert absfs.FS.Stat : [never-follows-links] {C04} false
